@@ -58,11 +58,29 @@ def _case(ctx, cls, label):
     set_ref = z3.Bool("set_reference")
     vnone, vph, vvalid = z3.Bool("value_is_None"), z3.Bool("value_is_placeholder"), z3.Bool("value_is_valid")
     lookup = z3.Int("lookup")            # 0: identifier free, 1: carried by this very line, 2: carried by another line
+    vstr = z3.Bool("value_is_a_text")
+    listed_p, listed_s = z3.Bool("listed_by_a_path"), z3.Bool("listed_by_a_set")
+    class _Truthy:
+        def __init__(self, b):
+            self.b = b
+        def pyvc_truth(self, E):
+            return self.b
+    class _RefsOfLine:                     # the collections of the line: only asked whether groups list it
+        def pyvc_attr(self, E, attr, st):
+            if attr != "get":
+                raise Unsupported("_refs.%s" % attr)
+            class G_:
+                def pyvc_call(self, E, pos, kw, st):
+                    k_ = conc(pos[0])
+                    if k_ not in ("paths", "sets"):
+                        raise Unsupported("_refs.get(%r)" % (k_,))
+                    yield ("val", _Truthy(listed_p if k_ == "paths" else listed_s), st)
+            yield ("val", G_(), st)
     s = Obj(cls, "line")
     gfa = Obj(g.Gfa, "gfa")
     other = Obj(cls, "other")
     val = Obj(None, "value")
-    heap = {s.oid: {"_gfa": Opt(z3.Not(connected), gfa), "vlevel": vlevel, "_data": DataDict(z3.Bool("has_field")), "_datatype": DatatypeTable()}, gfa.oid: {}, other.oid: {}, val.oid: {}}
+    heap = {s.oid: {"_gfa": Opt(z3.Not(connected), gfa), "vlevel": vlevel, "_data": DataDict(z3.Bool("has_field")), "_datatype": DatatypeTable(), "_refs": _RefsOfLine()}, gfa.oid: {}, other.oid: {}, val.oid: {}}
     value = Opt(vnone, val)
     def m_validate(E, st, pos_, kw):
         yield ("raise", Exc(g.FormatError), [z3.Not(vvalid)])
@@ -73,7 +91,16 @@ def _case(ctx, cls, label):
         yield ("val", None, [], st.with_ghost("dirty", True).with_ghost("unregistered", True))
     def m_register(E, st, pos_, kw):
         yield ("val", None, [], st.with_ghost("dirty", True).with_ghost("registered_with", True))
+    import builtins
+    def m_isinstance(E, st, pos_, kw):
+        x = pos_[0].val if isinstance(pos_[0], Opt) else pos_[0]
+        if x is val and pos_[1] is str:
+            yield ("val", vstr, [])
+        else:
+            raise Unsupported("isinstance(%r, %r)" % (pos_[0], pos_[1]))
     models = {
+        builtins.isinstance: m_isinstance,
+        g.Line.record_type.fget: const_model(lambda self_: cls.RECORD_TYPE),
         ctx.fn("gfapy/field/validator.py::Validator._validate_gfa_field"): m_validate,
         ctx.fn("gfapy/line/common/field_datatype.py::FieldDatatype._field_datatype"): const_model(lambda *a: Unknown("datatype")),
         ctx.fn("gfapy/line/common/field_datatype.py::FieldDatatype._field_or_default_datatype"): const_model(lambda *a: Unknown("datatype")),
@@ -90,6 +117,9 @@ def _case(ctx, cls, label):
     if cls.STORAGE_KEY not in (None, "name", "merge"):
         renaming = z3.Or(renaming, z3.And(connected, fieldname == sv(cls.STORAGE_KEY)))
     protected = z3.And(connected, z3.Not(set_ref), z3.Or(*[fieldname == sv(f) for f in list(cls.REFERENCE_FIELDS) + list(cls.BACKREFERENCE_RELATED_FIELDS)] or [z3.BoolVal(False)]))
+    # a new identifier that is not a text, and the removal of an identifier by which groups list the line: refused before the line leaves the registry (every level)
+    not_a_name = z3.And(renaming, z3.Not(vnone), z3.Not(vstr), z3.Not(vph))
+    needed = z3.And(renaming, z3.Or(vnone, vph), z3.BoolVal(cls.RECORD_TYPE in ("E", "G", "O", "U")), z3.Or(listed_p, listed_s))
     def post(k, v, st):
         dirty = bool(st.ghost.get("dirty"))
         if k == "raise":
@@ -97,11 +127,13 @@ def _case(ctx, cls, label):
             if v.cls is g.NotUniqueError:
                 c.append(z3.And(renaming, lookup == 2))
             elif v.cls is g.RuntimeError:
-                c.append(protected)
+                c.append(z3.Or(protected, needed))
+            elif v.cls is g.TypeError:
+                c.append(not_a_name)
             else:
                 c.append(z3.And(z3.Not(vvalid), z3.Not(vnone), z3.Or(vlevel >= 3, z3.And(renaming, vlevel >= 1))))      # C18: only invalid values are rejected
             return z3.And(*c)
-        c = [z3.Not(protected),
+        c = [z3.Not(protected), z3.Not(not_a_name), z3.Not(needed),
              z3.Implies(z3.And(vlevel >= 3, z3.Not(vnone)), vvalid),                                          # C18: level 3 reports at the assignment
              z3.Implies(z3.And(renaming, z3.Not(vnone), z3.Not(vph)), lookup != 2),                            # C09: never onto an identifier in use
              z3.BoolVal(bool(st.ghost.get("registered_with")) == bool(st.ghost.get("unregistered"))),           # the line is back in the registry
@@ -112,7 +144,7 @@ def _case(ctx, cls, label):
         return z3.And(*c)
     pre = [pf, vlevel >= 0, vlevel <= 3, lookup >= 0, lookup <= 2, z3.Implies(vnone, z3.Not(vph))]
     sym = dict(fieldname=fieldname, vlevel=vlevel, connected=connected, set_reference=set_ref, value_is_None=vnone, value_is_placeholder=vph,
-               value_is_valid=vvalid, lookup=lookup, has_field=has)
+               value_is_valid=vvalid, lookup=lookup, has_field=has, value_is_a_text=vstr, listed_by_a_path=listed_p, listed_by_a_set=listed_s)
     def replay(w):
         return {"target": "bounded.replay_helpers:set_existing_field", "args": [label, w["fieldname"], w["vlevel"], w["connected"], w["set_reference"], w["value_is_None"],
                                                                            w["value_is_placeholder"], w["value_is_valid"], w["lookup"], bool(w.get("has_field"))]}
@@ -129,7 +161,8 @@ class SetExistingField(Contract):
     fragment = "H"
     doc = ("per receiver class (segment, link, GFA2 edge, gap, unordered group): a raising path has written nothing (dirty = false) and raises a gfapy.Error; "
            "NotUniqueError iff a connected line is renamed onto an identifier carried by another line; RuntimeError iff a protected field of a "
-           "connected line is set directly; a validity error only for an invalid value and only at level 3 (or level >= 1 for a rename); on success the "
+           "connected line is set directly, or the identifier by which groups list a connected E / G / O / U line is taken away; TypeError iff the new identifier of a connected "
+           "line is neither a text nor a placeholder (at every level, before the line leaves the registry); a validity error only for an invalid value and only at level 3 (or level >= 1 for a rename); on success the "
            "value is stored, the line is back in the registry, and at level 3 the value was valid; the datatype of a tag is dropped iff None is "
            "assigned to a tag that has a value")
 
